@@ -43,6 +43,7 @@ static cbor_item_t* build_int(const rnode* n, struct vh_rng* r) {
   return it;
 }
 
+bool g_any_float_in_half; /* set by drivers whose property quantifies over every item, not only over C03's space */
 cbor_item_t* ser_build_variant(const rnode* n, struct vh_rng* r) {
   cbor_item_t* it = NULL;
   switch (n->kind) {
@@ -51,6 +52,9 @@ cbor_item_t* ser_build_variant(const rnode* n, struct vh_rng* r) {
       bool viaset = vh_below(r, 2);
       if (n->width == 1) {
         float f = f_from_bits(ref_half_to_single_bits((uint16_t)n->val));
+        /* C03 is stated for half-width items holding half-representable values; sizes, buffers and copies (C07, C11, the
+         * API scenarios of C06) are for every item, and the API lets a half-width item hold any float */
+        if (g_any_float_in_half && vh_below(r, 3) == 0) { static const float odd[] = {3.14f, 0.1f, -2.718f, 1e-10f, 1e10f, 65520.0f, 65519.0f, 2.4e-8f, 1.00048828125f, -1e-40f}; f = odd[vh_below(r, sizeof odd / sizeof odd[0])]; }
         if (viaset) { it = cbor_new_float2(); if (it) cbor_set_float2(it, f); } else it = cbor_build_float2(f);
       } else if (n->width == 2) {
         float f = f_from_bits((uint32_t)n->val);
@@ -981,6 +985,7 @@ static void setup(void) {
   if (P == 20 && !strcmp(O.stage, "giant")) P = 7; /* the giant items are C20's business as much as C07's */
   if (P != 3 && P != 7 && P != 11) vh_die("driver ser: --prop must be C03, C07 or C11");
   LIM = (size_t)O.L;
+  g_any_float_in_half = P == 7 || P == 11;
   ref_selftest();
   ta_install();
   if (!ta_selftest()) vh_die("track allocator self-test failed");
